@@ -189,9 +189,9 @@ def _unjson(tla_string_literal):
     return v
 
 
-def _tv_one(ctx, module, trace, timeout, label, constants, env, invariants=()):
+def _tv_one(ctx, module, trace, timeout, label, constants, env, invariants=(), spec="Spec"):
     cfg = ctx.path(f"{label}.cfg")
-    lines = ["SPECIFICATION Spec"]
+    lines = [f"SPECIFICATION {spec}"]
     if constants:
         lines.append("CONSTANTS")
         for k, v in constants.items():
@@ -214,7 +214,7 @@ def _tv_one(ctx, module, trace, timeout, label, constants, env, invariants=()):
     return p, fo, out, md
 
 
-def run_tv(ctx, module, trace, timeout=1800, label=None, constants=None, env=None, shards=None, invariants=()):
+def run_tv(ctx, module, trace, timeout=1800, label=None, constants=None, env=None, shards=None, invariants=(), spec="Spec"):
     """Validates a recorded NDJSON trace against spec/<module>.tla (split into shards run in parallel).
     Returns list of (id, detail, tag, extra)."""
     label = label or module
@@ -233,7 +233,7 @@ def run_tv(ctx, module, trace, timeout=1800, label=None, constants=None, env=Non
             o.close()
         files = [o.name for o in outs]
     t = time.time()
-    procs = [_tv_one(ctx, module, fpath, timeout, f"{label}-{i}", constants, env, invariants) for i, fpath in enumerate(files)]
+    procs = [_tv_one(ctx, module, fpath, timeout, f"{label}-{i}", constants, env, invariants, spec) for i, fpath in enumerate(files)]
     mism = []
     tot_consumed = tot_total = tot_bad = 0
     generated = distinct = 0
